@@ -129,7 +129,7 @@ def _schema_only(a, b):
 
 def run(ctx):
     if ctx.tier == "quick":
-        plan = [(["T:3"], [2, 2]), (["Tg:3"], [2])]
+        plan = [(["T:3"], [2, 2]), (["Tg:3"], [2])] + explore.extra_stages("full")
     else:
         plan = [(["T:3"], [3, 3]), (["T:3"], [1, 1, 1]), (["T:m0,5,5,9", "T:1", "T:u4"], [3, 2]), (["T:3"], [2, 2, 1])]
     ctx.rule = (
